@@ -47,20 +47,25 @@ P = {
  "C13": ("GT.Props.C13: C13_kl_eq (= GT.Math.klGauss), C13_kl_nonneg, C13_kl_eq_zero_iff (all broadcast patterns), entropy formula, "
          "C13_conditional_entropy, C13_mutual_information, C13_mi_nonneg, C13_mi_zero_of_M_zero, C13_mi_add_conditional_entropy.", "§5 C13"),
  "C14": ("GT.Props.C14: C14_log_factor (all four factor classes, batch 1 or R), C14_log_conditional, C14_log_conditional_y as Lebesgue "
-         "integrals (mass-one hypothesis explicit, offset versions without it). Feature-model clause: correspondence + quadrature oracle.", "§5 C14"),
+         "integrals (mass-one hypothesis explicit, offset versions without it). GT.Props.C14Feature: the feature-model clause — C14F_log_conditional_y, "
+         "C14F_log_conditional (px = None), _px (px the x-marginal), _px_offset (exact value for any other px), _px_marginal, _iterated, for both "
+         "kernels and all sizes.", "§5 C14"),
  "C15": ("GT.Props.C15: specialised = general: diagonal inversion, diagonal measures/densities/conditionals, factor kinds vs the general "
          "factor on the same (Λ,ν,β), identity-mean classes vs toCond, NN-control = set_control_variable + general operation.", "§5 C15"),
- "C16": ("GT.Props.C16 (feature models complete; heteroscedastic exp / cosh−1 partly): kernels are the documented unit-height bumps "
+ "C16": ("GT.Props.C16 + GT.Props.C16Trunc (feature models and all four heteroscedastic links, any number R of components of p(x)): kernels are the documented unit-height bumps "
          "(C16_rbf_kernel, C16_lsem_kernel, C16_unit_height_*), read-out and condition_on_x density (C16_readout, C16_condition_on_x), kernel "
          "expectations = Lebesgue integrals of product measures (C16_E_k, C16_E_xk, C16_E_kk), moment matching by the tower rule (C16_mean, C16_cov, "
-         "C16_cross, C16_tower_iterated), C16_marginal_params, C16_joint_params, C16_conditional_is_condition_on_joint; C16_hetero_mean/cross/cov. "
-         "NOT proved: Fubini identification of the iterated integrals with the joint law; step / ReLU links are covered by the correspondence "
-         "and quadrature oracle only.", "§5 C16"),
+         "C16_cross, C16_tower_iterated), C16_marginal_params, C16_joint_params, C16_conditional_is_condition_on_joint; C16_hetero_mean/cross/cov and C16_hetero_{marginal,joint,"
+         "conditional}_params for every link whose expected noise is the expected link value (NoiseOK): noiseOK_exp, noiseOK_cosh, and — through the "
+         "push-forward of p(x) to h = w'x + w0 (gaussProb_map_affine, by mgf uniqueness) and C20's truncated moments — noiseOK_heaviside, noiseOK_relu "
+         "(non-zero input weights; zero weights are the known finding hetero-trunc-degenerate). NOT proved: Fubini identification of the iterated "
+         "integrals with the joint law.", "§5 C16"),
  "C17": ("PARTIAL (known finding hetero-woodbury-Da>Dy). GT.Props.C17 + GT.Math.Bounds: C17_cov (all links, all shapes), "
          "C17_precision_partial / C17_precision_square (Λ = Σ(x)⁻¹ and ln det under the decoupling hypothesis, which holds for Da = Dy), "
          "C17_counterexample (the full statement is false for Dy=1, Da=2), C17_lower_bound_exp / _coshM1 (returned value ≤ true expectation, "
-         "for every value of the variational parameters, integrability proved), C17_tight_at_zero_weights. NOT proved: step / ReLU links "
-         "(correspondence + quadrature only), the asymptotic quadratic decay of the gap (numerical test), anything for Da > Dy.", "§5 C17"),
+         "for every value of the variational parameters, integrability proved), C17_tight_at_zero_weights. NOT proved: bounds of the step / ReLU links "
+         "(modelled in GT/Model/HeteroTrunc.lean, tied by correspondence, validated against piecewise quadrature; known finding "
+         "hetero-trunc-degenerate), the asymptotic quadratic decay of the gap (numerical test), anything for Da > Dy.", "§5 C17"),
  "C18": ("PARTIAL. GT.Props.C18: decide-theorems over the class table REGENERATED from /repo's source on every run (to_dict keys are "
          "constructor fields, from_dict has to_dict, API classes present); C18_pdf_roundtrip (density rebuilt from its constructor fields "
          "evaluates to the same function), C18_cond_roundtrip. jit/vmap/scan/grad transparency is validated by running pipelines, not proved.", "§5 C18"),
